@@ -388,7 +388,7 @@ struct Run{
     configure(cfg,false);
     int rc=lib_call([&]{ live->ini(nx,nsun,nrhos,nsc,t_ini); });
     if(rc!=CALL_OK){ c.violation("C10","reini:threw","ini","ini threw \""+g_what+"\""); return; }
-    if(live->Get_t()!=t_ini||live->Get_t_initial()!=t_ini){ c.violation("C10","clock:reini","ini","after re-initialisation Get_t() and Get_t_initial() must equal the new initial time"); return; }
+    if(live->Get_t()!=t_ini||live->Get_t_initial()!=t_ini){ c.violation("C10","clock:reini","ini","after re-initialisation Get_t() and Get_t_initial() must equal the new initial time"); if(!c.out->ok) return; }
     if(!setup_state(cfg)) return;
     check_views("reini",false);
     // views must not overlap: write a distinct value through each view and read all back
@@ -413,7 +413,7 @@ struct Run{
     Rng r((uint64_t)o["vs"].as_int(1));
     std::vector<double> oc(nsun*nsun); for(size_t k=0;k<oc.size();k++) oc[k]=r.uniform(-1,1);
     Mat O=from_components(nsun,&oc[0]);
-    double tau=live->Get_t()-live->Get_t_initial();
+    double tau=live->Get_t()-t_ini;      // elapsed since the initial time the harness passed to ini(), not the one the library remembers
     begin("expect:"+kind,prop=="C05"?"C05":"C15");
     shp("expect:"+kind);
     squids::SU_vector op; lib_call([&]{ op=squids::SU_vector(oc); });
